@@ -273,6 +273,66 @@ func mapUpdateItemInputToTypes(input *dynamodb.UpdateItemInput) *types.UpdateIte
 	return updateInput
 }
 
+// The SDK v1 types are trees of pointers and slices. Stored items must not share memory
+// with the structures of the caller, in either direction, so scalar targets are copied.
+
+func copyString(s *string) *string {
+	if s == nil {
+		return nil
+	}
+
+	v := *s
+
+	return &v
+}
+
+func copyBool(b *bool) *bool {
+	if b == nil {
+		return nil
+	}
+
+	v := *b
+
+	return &v
+}
+
+func copyBytes(b []byte) []byte {
+	if b == nil {
+		return nil
+	}
+
+	out := make([]byte, len(b))
+	copy(out, b)
+
+	return out
+}
+
+func copyBytesSlice(bs [][]byte) [][]byte {
+	if bs == nil {
+		return nil
+	}
+
+	out := make([][]byte, len(bs))
+	for i, b := range bs {
+		out[i] = copyBytes(b)
+	}
+
+	return out
+}
+
+func copyStringSlice(ss []*string) []*string {
+	if ss == nil {
+		return nil
+	}
+
+	out := make([]*string, len(ss))
+	for i, s := range ss {
+		out[i] = copyString(s)
+	}
+
+	return out
+}
+
 func mapAttributeValueToTypes(attrs map[string]*dynamodb.AttributeValue) map[string]*types.Item {
 	if attrs == nil {
 		return nil
@@ -286,16 +346,16 @@ func mapAttributeValueToTypes(attrs map[string]*dynamodb.AttributeValue) map[str
 		}
 
 		mapItems[key] = &types.Item{
-			B:    attr.B,
-			BOOL: attr.BOOL,
-			BS:   attr.BS,
+			B:    copyBytes(attr.B),
+			BOOL: copyBool(attr.BOOL),
+			BS:   copyBytesSlice(attr.BS),
 			L:    mapAttributeValueListToTypes(attr.L),
 			M:    mapAttributeValueToTypes(attr.M),
-			N:    attr.N,
-			NS:   attr.NS,
-			NULL: attr.NULL,
-			S:    attr.S,
-			SS:   attr.SS,
+			N:    copyString(attr.N),
+			NS:   copyStringSlice(attr.NS),
+			NULL: copyBool(attr.NULL),
+			S:    copyString(attr.S),
+			SS:   copyStringSlice(attr.SS),
 		}
 	}
 
@@ -315,16 +375,16 @@ func mapAttributeValueListToTypes(attrs []*dynamodb.AttributeValue) []*types.Ite
 		}
 
 		mapItems[i] = &types.Item{
-			B:    attr.B,
-			BOOL: attr.BOOL,
-			BS:   attr.BS,
+			B:    copyBytes(attr.B),
+			BOOL: copyBool(attr.BOOL),
+			BS:   copyBytesSlice(attr.BS),
 			L:    mapAttributeValueListToTypes(attr.L),
 			M:    mapAttributeValueToTypes(attr.M),
-			N:    attr.N,
-			NS:   attr.NS,
-			NULL: attr.NULL,
-			S:    attr.S,
-			SS:   attr.SS,
+			N:    copyString(attr.N),
+			NS:   copyStringSlice(attr.NS),
+			NULL: copyBool(attr.NULL),
+			S:    copyString(attr.S),
+			SS:   copyStringSlice(attr.SS),
 		}
 	}
 
@@ -340,16 +400,16 @@ func mapAttributeValueToDynamodb(attrs map[string]*types.Item) map[string]*dynam
 
 	for key, attr := range attrs {
 		mapItems[key] = &dynamodb.AttributeValue{
-			B:    attr.B,
-			BOOL: attr.BOOL,
-			BS:   attr.BS,
+			B:    copyBytes(attr.B),
+			BOOL: copyBool(attr.BOOL),
+			BS:   copyBytesSlice(attr.BS),
 			L:    mapAttributeValueListToDynamodb(attr.L),
 			M:    mapAttributeValueToDynamodb(attr.M),
-			N:    attr.N,
-			NS:   attr.NS,
-			NULL: attr.NULL,
-			S:    attr.S,
-			SS:   attr.SS,
+			N:    copyString(attr.N),
+			NS:   copyStringSlice(attr.NS),
+			NULL: copyBool(attr.NULL),
+			S:    copyString(attr.S),
+			SS:   copyStringSlice(attr.SS),
 		}
 	}
 
@@ -375,16 +435,16 @@ func mapAttributeValueListToDynamodb(attrs []*types.Item) []*dynamodb.AttributeV
 
 	for i, attr := range attrs {
 		mapItems[i] = &dynamodb.AttributeValue{
-			B:    attr.B,
-			BOOL: attr.BOOL,
-			BS:   attr.BS,
+			B:    copyBytes(attr.B),
+			BOOL: copyBool(attr.BOOL),
+			BS:   copyBytesSlice(attr.BS),
 			L:    mapAttributeValueListToDynamodb(attr.L),
 			M:    mapAttributeValueToDynamodb(attr.M),
-			N:    attr.N,
-			NS:   attr.NS,
-			NULL: attr.NULL,
-			S:    attr.S,
-			SS:   attr.SS,
+			N:    copyString(attr.N),
+			NS:   copyStringSlice(attr.NS),
+			NULL: copyBool(attr.NULL),
+			S:    copyString(attr.S),
+			SS:   copyStringSlice(attr.SS),
 		}
 	}
 
